@@ -71,16 +71,17 @@ def load_known():
 # ----------------------------------------------------------------------------------------------
 # reflective-checker properties (C08, C07, C05): shared flow
 # ----------------------------------------------------------------------------------------------
-def reflective(prop, tier, seed, oracle_module, level_note, extra_obligations=None, ncorr=None, oracle_args=None):
+def reflective(prop, tier, seed, oracle_module, level_note, extra_obligations=None, ncorr=None, oracle_args=None, gprops=True, seq_obligations=None, theorems=None):
     t0 = time.time()
     problems = []       # broken obligations / correspondences (strings)
     with coqbuild.Lock():
         ok, gen_out = regenerate()
         if not ok:
             problems.append('translator: ' + gen_out[-1500:])
-        p = run(['python3', os.path.join(HERE, 'mkprops.py'), prop])
-        if p.returncode != 0:
-            problems.append('mkprops: ' + (p.stdout + p.stderr)[-1500:])
+        if gprops:
+            p = run(['python3', os.path.join(HERE, 'mkprops.py'), prop])
+            if p.returncode != 0:
+                problems.append('mkprops: ' + (p.stdout + p.stderr)[-1500:])
         th = coqbuild.build_theories()
         for r in th:
             if not r['ok']:
@@ -91,10 +92,17 @@ def reflective(prop, tier, seed, oracle_module, level_note, extra_obligations=No
         for r in gres:
             if not r['ok']:
                 problems.append('generated model %s does not compile: %s' % (r['file'], r['out'][-800:]))
-        obl = sorted('gprops/' + f for f in os.listdir(os.path.join(COQ, 'gprops')) if f.startswith(prop + '_') and f.endswith('.v'))
+        obl = []
+        if gprops:
+            obl = sorted('gprops/' + f for f in os.listdir(os.path.join(COQ, 'gprops')) if f.startswith(prop + '_') and f.endswith('.v'))
         if extra_obligations:
             obl += extra_obligations
         ores = coqbuild.build_many(obl)
+        # hand-written property files with dependencies between them: built in the given order
+        for f in (seq_obligations or []):
+            r = coqbuild.build_one(f, timeout=1800)
+            ores.append(r)
+            obl.append(f)
         gate = coqbuild.grep_gate()
     if gate:
         problems.append('forbidden vernacular: ' + '; '.join(gate))
@@ -135,7 +143,7 @@ def reflective(prop, tier, seed, oracle_module, level_note, extra_obligations=No
     for k in {k['key']: k for k in known_hits}.values():
         print('KNOWN-FINDING: property=%s %s' % (prop, k['what']))
     coverage = dict(
-        obligations=len(ores), discharged=discharged,
+        obligations=len(ores), discharged=discharged, theorems=theorems or [],
         checker_cmd='tools/check.py %s --tier %s  (gen.py -> mkprops.py -> coqc of coq/gprops/%s_*.v against coq/theories)' % (prop, tier, prop),
         trusted_base=TRUSTED_BASE + [level_note],
         axioms=sorted(axioms), programs=len(man.get('programs', {})),
@@ -210,7 +218,19 @@ def check_C05(tier, seed):
                       oracle_args=['--prop', 'C05'])
 
 
-CHECKS = {'C08': check_C08, 'C07': check_C07, 'C05': check_C05}
+def check_C04(tier, seed):
+    return reflective('C04', tier, seed, 'oracle_C04',
+                      'Proved for every index type and every LINEAR differentiation operator (hence every grid size and matrix), for every '
+                      'input environment, on the program regenerated from calculate_r2: the residuals of the two block rows of the assembled '
+                      'linear system are identically the two O(r^2) differential equations written in full form (props/C04_spec.v), the two '
+                      'algebraic constraints hold identically, and G2, beta_1s, B20 mean/residual/variation equal their closed forms. '
+                      'Assumed (validated by the harness each run): np.linalg.solve returns a solution of the assembled system. Not proved: '
+                      'size of the float residual relative to conditioning.',
+                      gprops=False, seq_obligations=['props/C04_spec.v', 'props/C04.v'],
+                      theorems=['C04_system_h0', 'C04_system_hN', 'C04_closed_h0', 'C04_closed_hN'])
+
+
+CHECKS = {'C04': check_C04, 'C08': check_C08, 'C07': check_C07, 'C05': check_C05}
 
 
 def main():
@@ -222,7 +242,7 @@ def main():
     seed = int(os.environ.get('VERIF_SEED', '20240930'))
     if a.replay:
         rep = json.load(open(a.replay))
-        mod = {'C08': 'oracle_C08', 'C07': 'oracle_sym', 'C05': 'oracle_sym'}.get(a.prop)
+        mod = {'C08': 'oracle_C08', 'C07': 'oracle_sym', 'C05': 'oracle_sym', 'C04': 'oracle_C04'}.get(a.prop)
         res = harness(mod, (['--prop', a.prop] if mod == 'oracle_sym' else []) + ['--mode', 'replay', '--file', a.replay])
         print(json.dumps(res, indent=1))
         return 1 if res.get('violations') else 0
